@@ -33,7 +33,7 @@ def type_graph(prog, roots):
 
 
 def run(chk, prog):
-    chk.rules_live = ["R1", "R2", "R3", "R4", "R5"]
+    chk.rules_live = ["R1", "R2", "R3", "R4", "R5", "R6"]
     chk.explanation = (
         "Structural rules over the type graph reachable from the signed portion of the four role types "
         "(type-checked ADT facts joined with #[serde(..)] attributes parsed from the sources): what is "
@@ -158,6 +158,10 @@ def run(chk, prog):
                     "extra_skip_type changes the catch-all map otherwise than by removing `_type` (removes %s, other "
                     "mutations %d)" % (keys, len(ins)))
     r5_manual(chk, prog, graph, manual_ser)
+    # R6: the canonical form that is signed/verified keeps distinct object members distinct — the
+    # member map of the formatter is keyed by an exact un-escaping of the written key (shared with C11-R3)
+    from . import c11
+    c11.r3_ordering(_Relabel(chk, "R6"), prog)
 
 
 def r5_manual(chk, prog, graph, manual_ser):
@@ -235,3 +239,6 @@ class _Relabel:
 
     def ok(self, rule, *a, **k):
         return self.chk.ok(self.rule, *a, **k)
+
+    def anchor_missing(self, rule, *a, **k):
+        return self.chk.anchor_missing(self.rule, *a, **k)
